@@ -40,6 +40,7 @@ var buildConfigs = map[string]BuildConfig{
 
 // Ctx is the loaded program plus lazily built SSA and call graph.
 type Ctx struct {
+	minifyParent map[*ssa.Function]*ssa.Function
 	Repo   string
 	Config BuildConfig
 	Fset   *token.FileSet
